@@ -67,6 +67,7 @@ def main(argv=None):
     if a.replay:
         return do_replay(a.replay)
     t0 = time.time()
+    os.environ['PYVC_TIER'] = a.tier if a.tier in ('quick', 'thorough') else 'quick'
     contracts, lemmas = run.load_contract_modules()
     from . import api
     if a.list:
